@@ -12,7 +12,7 @@ RULE = ('cases = generated G-SEL spec with 1-3 design-variable nodes (continuous
         'model: an existing node stores clamp(value) and the corrected vector reports it, an absent node is inactive at '
         'the canonical value, set_des_var_value on a graph clamps the same way; non-trivial = a clamped value on a '
         'conditionally existing node; distinct by sha1(spec, encoder, vectors)')
-BUDGET = {'quick': 150, 'thorough': 4000}
+BUDGET = {'quick': 300, 'thorough': 6000}
 
 DISC_VALUES = [-5, -1, 0, 1, 2, 3, 4, 7, 0.5, 1.9, 2.49]
 CONT_OFFSETS = ['lo', 'hi', 'mid', 'lo-10', 'hi+10', 'lo+0.25', '-inf', '+inf']
